@@ -26,9 +26,12 @@ pub fn gen_char(rng: &mut Rng) -> char {
 }
 
 pub fn gen_string(rng: &mut Rng, max_len: usize) -> String {
-    let n = match rng.below(8) {
-        0 => 0,
-        1 => 1,
+    let n = match rng.below(48) {
+        0..=5 => 0,
+        6..=11 => 1,
+        // occasionally longer than the parser's initial scratch capacity (128 bytes)
+        12 => rng.range(100, 300),
+        13 => *rng.pick(&[127usize, 128, 129, 255, 256, 257]),
         _ => rng.range(0, max_len),
     };
     let mode = rng.below(4);
@@ -288,9 +291,10 @@ pub fn gen_ident(rng: &mut Rng) -> String {
             ])),
             _ => {
                 s.push(gen_initial(rng));
-                let n = match rng.below(6) {
-                    0 => 0,
-                    1 => rng.below(20),
+                let n = match rng.below(60) {
+                    0..=9 => 0,
+                    10..=19 => rng.below(20),
+                    20 => rng.range(120, 260),
                     _ => rng.below(7),
                 };
                 for _ in 0..n {
